@@ -73,6 +73,7 @@ type Enc struct {
 	anchorMissing    []string
 	imprecise        []string
 	replay           *ReplaySpec
+	quantFns         map[string]string
 }
 
 type Frame struct {
@@ -674,7 +675,7 @@ func (e *Enc) enterLoop(fr *Frame, li *loopInfo, preds []*ssa.BasicBlock, conds 
 				ov[phi] = e.val(fr, phi.Edges[pi])
 			}
 			for j, inv := range ann.Invariants {
-				ctx := &ExprCtx{e: e, fr: fr, st: sts[k], block: b, idx: 0, phiOverride: ov, atLoopHead: li}
+				ctx := &ExprCtx{e: e, fr: fr, st: sts[k], block: b, idx: len(li.phis), phiOverride: ov, atLoopHead: li}
 				g := ctx.boolExpr(inv.Expr)
 				e.addObligation("inv-init", fmt.Sprintf("loop%d#%d", li.ordinal, j), conds[k], g, inv.Text)
 			}
@@ -713,7 +714,7 @@ func (e *Enc) enterLoop(fr *Frame, li *loopInfo, preds []*ssa.BasicBlock, conds 
 	}
 	// 3. assume invariants
 	for _, inv := range ann.Invariants {
-		ctx := &ExprCtx{e: e, fr: fr, st: *st, block: b, idx: 0, atLoopHead: li}
+		ctx := &ExprCtx{e: e, fr: fr, st: *st, block: b, idx: len(li.phis), atLoopHead: li}
 		g := ctx.boolExpr(inv.Expr)
 		e.s.Assume(Imp(*reach, g))
 	}
@@ -758,7 +759,7 @@ func (e *Enc) backEdge(fr *Frame, li *loopInfo, from *ssa.BasicBlock) {
 		ov[phi] = e.val(fr, phi.Edges[pi])
 	}
 	for j, inv := range li.ann.Invariants {
-		ctx := &ExprCtx{e: e, fr: fr, st: fr.states[from], block: li.head, idx: 0, phiOverride: ov, atLoopHead: li}
+		ctx := &ExprCtx{e: e, fr: fr, st: fr.states[from], block: li.head, idx: len(li.phis), phiOverride: ov, atLoopHead: li}
 		g := ctx.boolExpr(inv.Expr)
 		e.addObligation("inv-pres", fmt.Sprintf("loop%d#%d", li.ordinal, j), cond, g, inv.Text)
 	}
